@@ -174,3 +174,33 @@ package tikv
 //@   modifies inferred:(*iter).Next
 //@   ensures [only-keys-of-the-interval] err == nil ==> it_valid[i.iter] && ite(i.reverse, bytes_cmp(it_key[i.iter], i.end) > 0, bytes_cmp(it_key[i.iter], i.end) < 0)
 //@   ensures [limit] err == nil && old(i.limit) > 0 ==> old(i.count) < old(i.limit)
+
+// ---- where an iteration starts ----
+// ti_seek / ti_upper / ti_reverse: the arguments of the client scan the adapter opened (ghost)
+//@ ghost ti_seek Slice
+//@ ghost ti_upper Slice
+//@ ghost ti_reverse Bool
+//@ func @github.com/tikv/client-go/v2/tikv.(*KVStore).GetSnapshot(ts) (snap)
+//@   assumed
+//@   pure
+//@   ensures [a-snapshot] snap != nil
+//@ func @github.com/tikv/client-go/v2/txnkv/txnsnapshot.(*KVSnapshot).Iter(k, upperBound) (it, err)
+//@   assumed
+//@   modifies ghost.ti_seek ghost.ti_upper ghost.ti_reverse
+//@   ensures [opened] ti_seek == k && ti_upper == upperBound && !ti_reverse
+//@ func @github.com/tikv/client-go/v2/txnkv/txnsnapshot.(*KVSnapshot).IterReverse(k) (it, err)
+//@   assumed
+//@   modifies ghost.ti_seek ghost.ti_reverse
+//@   ensures [opened] ti_seek == k && ti_reverse
+
+// A forward iteration scans [start, end). The client's reverse scan excludes its seek key, so a
+// backward iteration from start (inclusive) seeks the immediate successor of start: start followed
+// by one zero byte -- nothing above start is between the two.
+//@ func (*store).Iter(ctx, start, end, timestamp, limit) (it, err)
+//@   props C11 C12
+//@   nosafety
+//@   requires s != nil
+//@   modifies inferred:(*store).Iter ghost.ti_seek ghost.ti_upper ghost.ti_reverse
+//@   ensures [forward-scans-the-interval] err == nil && old(bytes_cmp(start, end)) <= 0 ==> !ti_reverse && ti_seek == start && ti_upper == end
+//@   ensures [backward-starts-right-after-start] err == nil && old(bytes_cmp(start, end)) > 0 ==> ti_reverse && len(ti_seek) == len(start)+1 && ti_seek[len(start)] == 0 && forall(j, 0 <= j && j < len(start), ti_seek[j] == start[j])
+//@   ensures [iterator-knows-its-end-and-direction] err == nil ==> typeis(it, "*tikv.iter") && asptr(it, "*tikv.iter") != nil && asptr(it, "*tikv.iter").end == end && asptr(it, "*tikv.iter").reverse == (old(bytes_cmp(start, end)) > 0)
